@@ -274,3 +274,12 @@ def run(rep, facts, tier):
                       'writer still holds is marked unavailable, never requested and acknowledged: the pair goes quiet with the sample missing for good')
     from rules.C01 import rule_exclusive_bound
     rule_exclusive_bound(rep, fx, 'R02.5')
+
+    # ------------------------------------------------------------ mechanisms decided under C03 / C04 that convergence needs just as much
+    # (after the mutation matrix and seed C02e: a mutant of the ACKNACK base, of the request going out, of the repair worker or of the unsent-set pruning broke
+    # convergence and was reported only by ./check C03 or ./check C04)
+    from rdv import report as _report
+    _report.borrow(rep, facts, tier, 'C03', {'R03.3': 'R02.7', 'R03.9': 'R02.8', 'R03.12': 'R02.9'})
+    _report.borrow(rep, facts, tier, 'C04', {'R04.1': 'R02.10', 'R04.4': 'R02.11', 'R04.6': 'R02.12'})
+
+
